@@ -1,8 +1,9 @@
 """C19: check configuration (PROPS_ENTRY, consumed by ./check and gen_manifest.py) and the list of lemmas that make up
 the property file (SPEC_ENTRY, consumed by tools/mkprops.py)."""
-PROPS_ENTRY = {'models': ['Model/Queue.v', 'Model/Owning.v'],
+PROPS_ENTRY = {'models': ['Model/Queue.v', 'Model/Owning.v', 'Model/Sound.v', 'Model/Vsock.v'],
  'design_ref': 'DESIGN.md 3 C19',
- 'assumptions': ['the handler passed to poll returns normally (a panicking handler loses the buffer, as documented in the code)',
+ 'assumptions': ['the check also runs the sound notification queue (scenario c20snd-notifications-*, monitor 2056) and read_header_and_body of the socket receive path (kind 1711, monitor 1952)',
+                 'the handler passed to poll returns normally (a panicking handler loses the buffer, as documented in the code)',
                  'bytes are not part of the Coq model: delivery of exactly the device-written bytes is checked on the implementation by the monitors (kinds '
                  '1950/1951) and follows from C04 (copy-back at unshare)'],
  'trusted_extra': ['VirtIOInput::pop_pending_event, VirtIOSound::latest_notification and the vsock rx queue are tied by monitors / their own properties; the '
